@@ -364,13 +364,7 @@ func monitor(c *hc.Ctx, input string, full []rune, spans []span, hasShrink bool,
 			return
 		}
 	}
-	for i := 0; i+1 < len(es); i++ {
-		a, b := es[i], es[i+1]
-		if !(a.GetOffset() < b.GetOffset() || (a.GetOffset() == b.GetOffset() && a.GetLength() >= b.GetLength())) {
-			c.Fail("entities-not-ordered", input, strings.Join(showEnts(es), ","))
-			return
-		}
-	}
+	// (the ORDER of the returned entities is property C36, checked there; not here)
 	if hasShrink {
 		return // ShrinkPreCode drops/merges entities by design; exactness is checked without it
 	}
